@@ -120,13 +120,26 @@ def c10_cases(tier):
                     out.append(ts)
     limit = 300 if tier == "quick" else len(out)
     step = max(1, len(out) // limit)
-    return out[::step][:limit] if tier == "quick" else out
+    out = out[::step][:limit] if tier == "quick" else out
+    # names whose rendering as a label is easy to get wrong: precomposed and decomposed accents, a
+    # zero-width joiner, CJK, a quote-free name with a backslash-like look, siblings around '/'
+    odd = ["caf\u00e9", "cafe\u0301", "z\u200dw", "\u65e5\u672c", "a-b", "a.c", "caf\u00e9/sub"]
+    for k in (1, 2, 3):
+        for tset in itertools.combinations(odd, k):
+            ts = [{"path": p} for p in tset]
+            out.append(ts)
+            if k >= 2:
+                ts2 = [{"path": p} for p in tset]
+                ts2[0]["uses"] = [tset[1]]
+                out.append(ts2)
+    return out
 
 
 # ------------------------------------------------------------------------------------------ C03 / C09
 
 def graph_task(args):
     prop, n, edges, files = args
+    tier_all = os.environ.get("VERIF_TIER_THOROUGH") == "1"
     ts = flat_targets(n, edges, files)
     tm = {t["path"]: t for t in ts}
     cyc = has_cycle(tm)
@@ -158,6 +171,9 @@ def graph_task(args):
         runs = [("run -c build", ["run", "-c", "build"], set(tm))]
         for x in tm:
             runs.append(("run -c build -t %s --deps" % x, ["run", "-c", "build", "-t", x, "--deps"], closure(tm, [x])))
+            # the same selection with a runtime argument for the named target (-a needs one command, one target)
+            if x == sorted(tm)[0] or tier_all:
+                runs.append(("run -c build -t %s --deps -a v" % x, ["run", "-c", "build", "-t", x, "--deps", "-a", "v"], closure(tm, [x])))
         for name, argv, want in runs:
             reach_cyc = has_cycle(tm, want)
             if cyc and not reach_cyc:
